@@ -273,6 +273,20 @@ class ProbeEngine(object):
             if not ok:
                 w.violate("SI", "__contains__ wrong for chip %r" % ((x, y),),
                           kind="helper")
+            # (x, y, p, state): true for exactly the state the core is in -
+            # every state of the enumeration asked about, dead (0) included
+            for p in (0, ci.num_cores - 1, self.t.draw(ci.num_cores)):
+                for st in self.AppState:
+                    if ((x, y, p, st) in si) != (ci.core_states[p] == st):
+                        w.violate("SI", "(%d, %d, %d, %s) in system_info is "
+                                  "%s; the core is in state %s"
+                                  % (x, y, p, st.name, (x, y, p, st) in si,
+                                     ci.core_states[p].name),
+                                  kind="helper-contains-state")
+            if (x, y, ci.num_cores, ci.core_states[0]) in si or \
+                    (x, y, -1, ci.core_states[0]) in si:
+                w.violate("SI", "a core that does not exist is reported "
+                          "present on chip %r" % ((x, y),), kind="helper")
 
     def check_machine(self, si):
         """build_machine / build_core_constraints / target lengths against
@@ -692,6 +706,7 @@ class ProbeEngine(object):
                          fifo_requests=False, n_tries_range=(1, 4),
                          timeouts=[0.02, 0.1, 0.5])
         self.Links = rig_module("rig.links").Links
+        self.AppState = rig_module("rig.machine_control.consts").AppState
         self.par = rig_module("rig.place_and_route")
         self.parutils = rig_module("rig.place_and_route.utils")
         self.rtutils = rig_module("rig.routing_table.utils")
